@@ -11,7 +11,7 @@ CLAIM = """Decides the loop-carried-dependence clause, which is the property its
 population engine's generation loop the parents handed to the engine step (SEA/DE/SHADE `run`, CMA-ES `tell`) are, on every
 path around the loop, redefined from the step's own result of the previous iteration (or read state that the loop body
 rewrites from it); their loop-entry value is the deme's current population; and the generations recorded for the metaepoch
-are exactly the step results. A loop-invariant parent argument (the pinned defect) is reported with its read and write sets."""
+are exactly the step results. A loop-invariant parent argument (the pinned defect) is reported with its read and write sets. (R11.6) only the deme itself records generations; a population kept in an attribute between metaepochs is the last recorded generation at every exit; on every path the operator applied last before evaluate() resets the fitness of changed rows."""
 NOTE = """That the engine step itself derives every offspring from the parents it is given is C02/C12's concern (operator
 pipelines); cma's ask/tell chain is an external summary."""
 TECHNIQUE = "def-use / loop-carried dependence analysis on per-function CFGs (ast), engine steps discovered through effect summaries"
